@@ -1,0 +1,29 @@
+//go:build verif
+
+// Package verifhook provides observation/yield points for runtime verification.
+// With the "verif" build tag a handler installed by the verification harness is called at each
+// point; without a handler a point does nothing.
+package verifhook
+
+import "sync/atomic"
+
+// Handler is called at every point: site name, worker number, identifier of the unit of work.
+type Handler func(site string, worker, id int)
+
+var handler atomic.Pointer[Handler]
+
+// Set installs (or, with nil, removes) the handler.
+func Set(h Handler) {
+	if h == nil {
+		handler.Store(nil)
+		return
+	}
+	handler.Store(&h)
+}
+
+// Point marks a place where a worker has received (or is about to deliver) a unit of work.
+func Point(site string, worker, id int) {
+	if h := handler.Load(); h != nil {
+		(*h)(site, worker, id)
+	}
+}
